@@ -98,7 +98,7 @@ func classify(stderr, signal string, exit int, timedOut bool, cpu time.Duration,
 		return "", ""
 	}
 	if signal != "" {
-		if strings.Contains(signal, "CPU time limit") || (signal == "killed" && cpu >= (cpuLimitSec-1)*time.Second) {
+		if strings.Contains(signal, "CPU time limit") || (signal == "killed" && cpu >= cpuLimitSec*time.Second*3/4) {
 			return "C16 | cpu-limit | " + mode, fmt.Sprintf("CPU limit of %ds exceeded (used %v)", cpuLimitSec, cpu)
 		}
 		return "C16 | signal | " + signal + " | " + mode, "killed by signal " + signal
@@ -269,7 +269,7 @@ func (rn *runner) cli(inputs []Input) {
 		if len(reqs) > 0 {
 			name2 = reqs[r.Intn(len(reqs))]
 		}
-		watch := strings.Contains(string(in.Main), "watch")
+		watch := strings.Contains(strings.ReplaceAll(string(in.Main), "\x00", ""), "watch") // NUL: UTF-16 re-encodings
 		for _, v := range in.Aux {
 			watch = watch || strings.Contains(v, "watch")
 		}
@@ -413,14 +413,14 @@ func (rn *runner) inproc(inputs []Input) {
 						j2, e2 := journal+".iso", errf+".iso"
 						os.Remove(j2)
 						_, stage2, done2, res2 := rn.runChild(manifest, j2, e2, last, last+1, base, "GOMAXPROCS=1")
-						if done2 && res2.Exit == 0 && last > from {
-							// the dying child's main goroutine may have raced ahead into the next input:
-							// the input before the journal's last one is the other candidate
+						for back := 1; back <= 3 && done2 && res2.Exit == 0 && last-back >= from; back++ {
+							// the dying child's main goroutine may have raced ahead into the following inputs:
+							// the inputs just before the journal's last one are the other candidates
 							os.Remove(j2)
-							if _, st, dn, rs := rn.runChild(manifest, j2, e2, last-1, last, base, "GOMAXPROCS=1"); !(dn && rs.Exit == 0) {
+							if _, st, dn, rs := rn.runChild(manifest, j2, e2, last-back, last-back+1, base, "GOMAXPROCS=1"); !(dn && rs.Exit == 0) {
 								rn.part.Count("crash_attributed_to_previous_input", 1)
 								stage2, done2, res2 = st, dn, rs
-								in = mine[last-1]
+								in = mine[last-back]
 							}
 						}
 						sig2, what2 := classify(res2.Stderr, res2.Signal, res2.Exit, false, 0, "inproc:"+strings.SplitN(stage2, " ", 2)[0])
